@@ -214,6 +214,48 @@ fn residual_cases(drv: &mut Drv, rep: &mut Report, rng: &mut Rng, n: usize) {
     }
 }
 
+/// `intra_predict_luma` + `intra_predict_chroma` of one macroblock (hook 0765b56) against the model
+/// Vp8Intra.predictMb: every macroblock position class (first row / column, last column, interior)
+/// of frames of 1..3 x 1..3 macroblocks, every 16x16 / chroma mode, B_PRED with random sub-block
+/// modes, residues that are zero, small, or push the clamp in either direction, random planes and
+/// borders; the planes and the two luma borders afterwards are compared byte for byte
+fn intra_cases(drv: &mut Drv, rep: &mut Report, rng: &mut Rng, n: usize) {
+    for i in 0..n {
+        let (mbw, mbh) = if rng.chance(1, 2) { (3usize, 3usize) } else { (1 + rng.below(3) as usize, 1 + rng.below(3) as usize) };
+        let (mbx, mby) = (rng.below(mbw as u64) as usize, rng.below(mbh as u64) as usize);
+        let luma_mode = (i % 5) as i8;
+        let chroma_mode = rng.below(4) as i8;
+        let mut bmodes = [0i8; 16];
+        for b in bmodes.iter_mut() { *b = rng.below(10) as i8; }
+        let rstyle = rng.below(4);
+        let res: Vec<i32> = (0..384).map(|k| {
+            let blk_zero = rstyle == 0 || (rstyle == 1 && (k / 16) % 3 != 0);
+            if blk_zero { 0 } else { match rng.below(6) { 0 => 0, 1 => rng.below(9) as i32 - 4, 2 => rng.below(101) as i32 - 50, 3 => 300, 4 => -300, _ => rng.below(601) as i32 - 300 } }
+        }).collect();
+        let pstyle = rng.below(3);
+        let mut gen = |rng: &mut Rng, len: usize| -> Vec<u8> { (0..len).map(|_| match pstyle { 0 => rng.byte(), 1 => 100 + rng.below(40) as u8, _ => *rng.pick(&[0u8, 1, 127, 128, 129, 254, 255]) }).collect() };
+        let y = gen(rng, mbw * 16 * mbh * 16);
+        let u = gen(rng, mbw * 8 * mbh * 8);
+        let v = gen(rng, mbw * 8 * mbh * 8);
+        let top = gen(rng, mbw * 16 + 20);
+        let left = gen(rng, 17);
+        let line = format!("vp8intra {mbw} {mbx} {mby} {luma_mode} {chroma_mode} {} {} {} {} {} {} {}", bmodes.iter().map(|b| b.to_string()).collect::<String>(), res.iter().map(|r| r.to_string()).collect::<Vec<_>>().join(","), hex(&top), hex(&left), hex(&y), hex(&u), hex(&v));
+        let got = match catch(|| hk::vp8_intra_predict(mbw as u16, mbh as u16, mbx, mby, luma_mode, chroma_mode, bmodes, &res, &top, &left, &y, &u, &v)) {
+            Ok(Some((fy, fu, fv, ft, fl))) => format!("{} {} {} {} {}", hex(&fy), hex(&fu), hex(&fv), hex(&ft), hex(&fl)),
+            Ok(None) => "bad-mode".to_string(),
+            Err(m) => format!("PANIC {m}"),
+        };
+        let exp = drv.ask(&line);
+        rep.case(&line, true);
+        rep.hit(&format!("intra_luma_mode_{}", ["dc", "v", "h", "tm", "b"][luma_mode as usize]));
+        rep.hit(match (mbx == 0, mby == 0, mbx + 1 == mbw) { (true, true, _) => "intra_position_corner", (true, false, _) => "intra_position_first_column", (false, true, _) => "intra_position_first_row", (false, false, true) => "intra_position_last_column", _ => "intra_position_interior" });
+        if got != exp {
+            let k = got.split(' ').zip(exp.split(' ')).position(|(a, b)| a != b).unwrap_or(9);
+            rep.disagree(Disagreement { case: line, got: got.split(' ').nth(k).unwrap_or("").chars().take(80).collect(), expected: exp.split(' ').nth(k).unwrap_or("").chars().take(80).collect(), class: "violation", obligation: "C02: a macroblock is reconstructed as RFC 6386 section 12 defines: border of the workspace, predictor chosen by the macroblock / sub-block / chroma mode, residue added with a clamp to 0..255, reconstructed samples stored in the planes and kept as borders for the next macroblocks (model Vp8Intra.predictMb over the proved predictor bodies)".into(), detail: format!("first differing output: {}", ["y plane", "u plane", "v plane", "top border", "left border"].get(k).unwrap_or(&"?")) });
+        }
+    }
+}
+
 /// `read_coefficients` (hook 99a8eca) against the model Vp8Coef.readCoefficients: random and biased
 /// partitions (long zero runs, end-of-block right away, large categories), the crate's default
 /// probabilities and random ones (incl. 0 and 255), every plane and starting context, several calls
@@ -704,6 +746,7 @@ pub fn run(o: &Opts) -> Report {
     quant_cases(&mut drv, &mut rep, &mut rng, if o.thorough() { 40000 } else { 4000 });
     loopfilter_cases(&mut drv, &mut rep, &mut rng, if o.thorough() { 12000 } else { 900 });
     residual_cases(&mut drv, &mut rep, &mut rng, if o.thorough() { 20000 } else { 1500 });
+    intra_cases(&mut drv, &mut rep, &mut rng, if o.thorough() { 15000 } else { 1500 });
     fparam_cases(&mut drv, &mut rep, &mut rng, if o.thorough() { 100000 } else { 6000 });
     // (b) frames
     let n = if o.thorough() { 1200 } else { 160 };
